@@ -29,7 +29,7 @@ fn fmt_two_bytes(w: &mut dyn std::io::Write, _now: &mut DeferredNow, _r: &Record
     w.write_all(&b)
 }
 
-// @verif prop=C20 tier=quick timeout=900 bounds=format-output-2-symbolic-bytes,LF-and-CRLF,sync-handle,non-recursive-path
+// @verif prop=C20,C01 tier=quick timeout=900 bounds=format-output-2-symbolic-bytes,LF-and-CRLF,sync-handle,non-recursive-path
 // StateHandle::write (sync) hands the state exactly one buffer per record: the format function's output followed by exactly one configured line ending (LF or CRLF), and leaves the thread-local buffer empty for the next record.
 #[kani::proof]
 #[kani::unwind(8)]
@@ -72,4 +72,55 @@ fn c20_framing_sync() {
     assert!(vs::ev_get(n as usize) == (2 << 8 | b0 as u32));
     kani::cover!(crlf && b0 == b'\n', "format output itself contains a newline");
     std::mem::forget(h);
+}
+
+// ------------------------------------------------------------------------------------------------
+// Recursive logging: the format function of the outer record logs another record through the same
+// handle while the thread-local buffer is borrowed (a log call inside a Display implementation).
+static HANDLE: std::sync::Mutex<Option<&'static StateHandle>> = std::sync::Mutex::new(None);
+fn fmt_recursive(w: &mut dyn std::io::Write, now: &mut DeferredNow, r: &Record) -> std::io::Result<()> {
+    if vs::cell_get(8) == 0 {
+        vs::cell_set(8, 1);
+        // inner record, logged from within the formatting of the outer one
+        let h = HANDLE.lock().unwrap().unwrap();
+        h.write(now, r).ok();
+        w.write_all(b"O")
+    } else {
+        w.write_all(b"I")
+    }
+}
+// @verif prop=C20,C03 tier=quick timeout=900 bounds=one-level-of-recursive-logging,LF-and-CRLF
+// Recursive logging from within a format function: the inner record is written first and the outer one after it, each as one intact buffer = its own format output + exactly one line ending (the fall-back buffer of the recursive branch is framed like the normal one).
+#[kani::proof]
+#[kani::unwind(8)]
+#[kani::stub(verif_support::reexp::catch_unwind, verif_support::stub_cu)]
+#[kani::stub(crate::writers::file_log_writer::state::State::write_buffer, rec_write_buffer)]
+#[kani::stub(crate::writers::file_log_writer::state::start_sync_flusher, cut_start_sync_flusher)]
+#[kani::stub(crate::util::eprint_err, stub_eprint_err)]
+#[kani::stub(crate::util::buffer_with, verif_support::buffer_with_model)]
+fn c20_framing_recursive() {
+    vs::link_all();
+    let crlf: bool = kani::any();
+    let mut cfg = mk_config(FileSpec::default().directory("d").basename("b").suppress_timestamp(), false, WriteMode::Direct);
+    if crlf {
+        cfg.line_ending = b"\r\n";
+    }
+    let state = State::new(cfg, None, false);
+    let h: &'static StateHandle = Box::leak(Box::new(StateHandle::new_sync(state, fmt_recursive)));
+    *HANDLE.lock().unwrap() = Some(h);
+    vs::cell_set(8, 0);
+    let mut now = DeferredNow::new();
+    let r = log::Record::builder().level(log::Level::Info).target("t").args(format_args!("m")).build();
+    h.write(&mut now, &r).ok();
+    let per = if crlf { 3 } else { 2 };
+    assert!(vs::cell_get(0) == 2); // two buffers handed over: inner, then outer
+    assert!(vs::ev_len() == 2 * per);
+    assert!(vs::ev_get(0) == (1 << 8 | b'I' as u32));
+    assert!(vs::ev_get(per) == (2 << 8 | b'O' as u32));
+    assert!(vs::ev_get(per - 1) == (1 << 8 | 10) && vs::ev_get(2 * per - 1) == (2 << 8 | 10));
+    if crlf {
+        assert!(vs::ev_get(1) == (1 << 8 | 13) && vs::ev_get(per + 1) == (2 << 8 | 13));
+    }
+    kani::cover!(crlf, "CRLF");
+    kani::cover!(!crlf, "LF");
 }
